@@ -505,3 +505,82 @@ Lemma sig_unique_b_sound : forall all, sig_unique_b all = true -> sig_unique all
 Proof.
   intros all H p1 p2 H1 H2 Hk Hs. apply (nodup_b_inj _ all H); auto. now rewrite Hk, Hs.
 Qed.
+
+Lemma R_of_table_ok : forall all tbl,
+  (forall p, In p all -> r_sig (snd p) <> 0) -> sig_unique all -> (forall p, In p tbl -> In p all) ->
+  table_ok (rules_of tbl) (R_of all).
+Proof.
+  intros all tbl Hnz Huniq Hsub k. unfold R_of.
+  set (pred := fun p : key * rule => N.eqb (fst p) k && N.eqb (r_sig (snd p)) (r_sig (rules_of tbl k))).
+  change (match find pred all with Some p => snd p | None => default_rule end = rules_of tbl k).
+  destruct (find pred all) as [p'|] eqn:Ef.
+  - apply find_some in Ef. destruct Ef as [Hin Hp]. unfold pred in Hp. apply andb_true_iff in Hp.
+    destruct Hp as [Hk Hs]. apply N.eqb_eq in Hk, Hs.
+    destruct (rules_of_cases tbl k) as [Hd|Hin'].
+    + exfalso. apply (Hnz p' Hin). rewrite Hs, Hd. reflexivity.
+    + assert (p' = (k, rules_of tbl k)) as -> by (apply Huniq; auto). reflexivity.
+  - destruct (rules_of_cases tbl k) as [Hd|Hin']; [now symmetry|].
+    exfalso. pose proof (find_none _ _ Ef _ (Hsub _ Hin')) as Hp. unfold pred in Hp. cbn [fst snd] in Hp.
+    now rewrite !N.eqb_refl in Hp.
+Qed.
+
+Definition sigs_nonzero_b (all : list (key * rule)) : bool := forallb (fun p => negb (N.eqb (r_sig (snd p)) 0)) all.
+Lemma sigs_nonzero_b_sound : forall all, sigs_nonzero_b all = true -> forall p, In p all -> r_sig (snd p) <> 0.
+Proof.
+  intros all H p Hp. unfold sigs_nonzero_b in H. rewrite forallb_forall in H. specialize (H p Hp).
+  apply negb_true_iff in H. now apply N.eqb_neq in H.
+Qed.
+
+(* ---------- a non-trivial instance with a rule edit ---------- *)
+
+(* rule 4 is redefined (new signature, no branch any more, must follow 5), then a new engine over the same database *)
+Definition ex_rule4b : rule := mkRule 41 false [1; 2] [] [5] None [].
+Definition ex_all : list (key * rule) := (4, ex_rule4b) :: ex_defs.
+Definition ex_tbl2 : list (key * rule) := (4, ex_rule4b) :: rev ex_defs.
+Definition ex_edit_history : list op :=
+  ex_history ++ [ORule 4 ex_rule4b; ORestart true; OBuild 8; OSet 1 9; OBuild 6; OBuild 8].
+
+Lemma ex_tb1 : forall k, (ex_rank k < 5)%nat -> table_build_ok 5 (R_of ex_all) (rev ex_defs) k.
+Proof.
+  intros k Hk. split; [|split; [exact ex_wf_disc | exists ex_rank; split; [exact ex_wf_rank | exact Hk]]].
+  apply R_of_table_ok.
+  - apply sigs_nonzero_b_sound. vm_compute. reflexivity.
+  - apply sig_unique_b_sound. vm_compute. reflexivity.
+  - intros p Hp. apply in_rev in Hp. now right.
+Qed.
+
+Lemma ex_tb2 : forall k, (ex_rank k < 5)%nat -> table_build_ok 5 (R_of ex_all) ex_tbl2 k.
+Proof.
+  intros k Hk. split; [|split; [|exists ex_rank; split; [|exact Hk]]].
+  - apply R_of_table_ok.
+    + apply sigs_nonzero_b_sound. vm_compute. reflexivity.
+    + apply sig_unique_b_sound. vm_compute. reflexivity.
+    + intros p [<-|Hp]; [now left | apply in_rev in Hp; now right].
+  - apply wf_disc_b_sound. vm_compute. reflexivity.
+  - apply wf_rank_b_sound. vm_compute. reflexivity.
+Qed.
+
+Lemma ex_edit_tables_ok : tables_ok 5 (R_of ex_all) ex_edit_history [] [].
+Proof.
+  unfold ex_edit_history, ex_history, ex_ops, rule_ops, ex_defs.
+  cbn [app map fst snd tables_ok next_rl next_pd].
+  repeat match goal with
+  | |- True => exact I
+  | |- table_build_ok _ _ _ _ => first [apply ex_tb1; vm_compute; lia | apply ex_tb2; vm_compute; lia]
+  | |- _ /\ _ => split
+  end.
+Qed.
+
+(* every build of the edited history returns the clean value under the table its engine instance sees *)
+Definition ex_edit_checks : list bool :=
+  flat_map (fun n =>
+    match nth_error ex_edit_history n with
+    | Some (OBuild k) =>
+        let h := run_history mixF ex_order 5 (firstn (S n) ex_edit_history) in
+        [match result_of (h_st h) k, cv (rules_of (h_rules h)) (env_of (h_env h)) mixF 5 k with
+         | Some a, Some b => value_eqb a b | _, _ => false end]
+    | _ => []
+    end) (seq 0 (length ex_edit_history)).
+
+Lemma ex_edit_history_clean : ex_edit_checks = [true; true; true; true; true; true; true; true; true].
+Proof. vm_compute. reflexivity. Qed.
